@@ -312,7 +312,14 @@ func (m *MinDistanceToShapeIndexTarget) visitContainingShapes(index *ShapeIndex,
 	// the query index, except for one special case to handle full polygons.
 	//
 	// TODO(roberts): Do this by merge-joining the two ShapeIndexes.
-	for _, shape := range m.index.shapes {
+	// Visit the target's shapes in increasing id order: when the search stops
+	// after MaxResults containing shapes, ranging over the shape map would make
+	// the reported shapes differ from call to call.
+	for shapeID := int32(0); shapeID < m.index.nextID; shapeID++ {
+		shape := m.index.Shape(shapeID)
+		if shape == nil {
+			continue
+		}
 		numChains := shape.NumChains()
 		// Shapes that don't have any edges require a special case (below).
 		testedPoint := false
